@@ -1,3 +1,4 @@
 -- Property theorems, one module per property id.
 import Props.C14
 import Props.C17
+import Props.C18
